@@ -13,7 +13,9 @@ import (
 	"go/token"
 	"go/types"
 	"path/filepath"
+	"regexp"
 	"sort"
+	"strconv"
 	"strings"
 )
 
@@ -1677,4 +1679,428 @@ func exprText(fset *token.FileSet, e ast.Expr) string {
 	var b bytes.Buffer
 	printer.Fprint(&b, fset, e)
 	return b.String()
+}
+
+// ---------------------------------------------------------------------------------------
+// C05/C06/C07: a list is a JSON array, also when it is empty. encoding/json writes a nil slice as `null`; the SMT model
+// reads `s == nil` as len(s) == 0 and cannot tell the two apart, so this is a syntactic rule over the extracted codecs:
+// every slice handed to json.Marshal is a local that is only ever assigned make(...), a composite literal or its own append.
+func init() {
+	structuralRules["emitted.json.slices_nonnil"] = func(w *World) []OblResult {
+		var probs []string
+		if w.Emitted == nil || w.EmittedClient == nil {
+			return []OblResult{structResult("emitted.json.lists_are_arrays", "", []string{"emitted package not loaded"})}
+		}
+		sites := 0
+		for _, k := range w.sortedFuncNames() {
+			fi := w.Funcs[k]
+			if fi.Decl == nil || fi.Decl.Body == nil || (fi.Obj.Pkg() != w.Emitted.Types && fi.Obj.Pkg() != w.EmittedClient.Types) {
+				continue
+			}
+			if !strings.Contains(filepath.Base(w.Fset.Position(fi.Decl.Pos()).Filename), "_") {
+				continue // <name>.pb.go is protoc-gen-go's own output
+			}
+			info := fi.Pkg.TypesInfo
+			nonNil := func(v *types.Var) bool {
+				ok, assigned := true, false
+				ast.Inspect(fi.Decl.Body, func(n ast.Node) bool {
+					switch x := n.(type) {
+					case *ast.ValueSpec:
+						for i, nm := range x.Names {
+							if info.Defs[nm] == v {
+								if i >= len(x.Values) {
+									ok = false // var s []T: nil
+								} else {
+									assigned = true
+									if !allocExpr(info, x.Values[i], v) {
+										ok = false
+									}
+								}
+							}
+						}
+					case *ast.AssignStmt:
+						if len(x.Lhs) != len(x.Rhs) {
+							for _, l := range x.Lhs {
+								if id, isId := l.(*ast.Ident); isId && (info.Defs[id] == v || info.Uses[id] == v) {
+									ok = false
+								}
+							}
+							return true
+						}
+						for i, l := range x.Lhs {
+							if id, isId := l.(*ast.Ident); isId && (info.Defs[id] == v || info.Uses[id] == v) {
+								assigned = true
+								if !allocExpr(info, x.Rhs[i], v) {
+									ok = false
+								}
+							}
+						}
+					case *ast.UnaryExpr:
+						if x.Op == token.AND {
+							if id, isId := unparen(x.X).(*ast.Ident); isId && info.Uses[id] == v {
+								ok = false // &s handed to a decoder: may come back nil
+							}
+						}
+					}
+					return true
+				})
+				return ok && assigned
+			}
+			ast.Inspect(fi.Decl.Body, func(n ast.Node) bool {
+				call, isCall := n.(*ast.CallExpr)
+				if !isCall || len(call.Args) != 1 {
+					return true
+				}
+				sel, isSel := call.Fun.(*ast.SelectorExpr)
+				if !isSel || sel.Sel.Name != "Marshal" {
+					return true
+				}
+				if f, isF := info.Uses[sel.Sel].(*types.Func); !isF || f.Pkg() == nil || f.Pkg().Path() != "encoding/json" {
+					return true
+				}
+				t := info.TypeOf(call.Args[0])
+				if t == nil {
+					return true
+				}
+				if _, isSlice := t.Underlying().(*types.Slice); !isSlice {
+					return true
+				}
+				if b, isB := t.Underlying().(*types.Slice).Elem().Underlying().(*types.Basic); isB && b.Kind() == types.Byte {
+					return true // []byte is a base64 string, not a list
+				}
+				sites++
+				switch a := unparen(call.Args[0]).(type) {
+				case *ast.Ident:
+					if v, isV := info.Uses[a].(*types.Var); isV && nonNil(v) {
+						return true
+					}
+				case *ast.CompositeLit:
+					return true
+				case *ast.CallExpr:
+					if id, isId := a.Fun.(*ast.Ident); isId && id.Name == "make" {
+						return true
+					}
+				}
+				probs = append(probs, fmt.Sprintf("%s hands the slice %s to json.Marshal, which may be nil: an empty list would be written as null, not [] (%s)", shortKey(fi.Obj), exprText(w.Fset, call.Args[0]), w.pos(call.Pos())))
+				return true
+			})
+		}
+		if sites == 0 {
+			probs = append(probs, "no json.Marshal call with a slice argument found in the extracted codecs (the extraction schema has a root-unwrap list): the rule would be vacuous")
+		}
+		return []OblResult{structResult("emitted.json.lists_are_arrays", "every slice the extracted codecs hand to json.Marshal is a local that is only ever assigned make(...), a composite literal or an append to itself: an empty list is written as [], never as null (the documented form of a list, the OpenAPI array schema and the TypeScript array type all exclude null)", uniq(probs))}
+	}
+}
+
+// allocExpr: e is make(...), a composite literal, or append(v, ...) for the variable itself.
+func allocExpr(info *types.Info, e ast.Expr, v *types.Var) bool {
+	switch x := unparen(e).(type) {
+	case *ast.CompositeLit:
+		return true
+	case *ast.CallExpr:
+		if id, ok := unparen(x.Fun).(*ast.Ident); ok {
+			if _, isB := info.Uses[id].(*types.Builtin); isB {
+				if id.Name == "make" {
+					return true
+				}
+				if id.Name == "append" && len(x.Args) > 0 {
+					if a, ok := unparen(x.Args[0]).(*ast.Ident); ok && info.Uses[a] == v {
+						return true
+					}
+				}
+			}
+		}
+	}
+	return false
+}
+
+// ---------------------------------------------------------------------------------------
+// C15: descriptors are shared by every file, service and plugin pass of one invocation, and the whole contract
+// machinery treats them as immutable. An in-place library mutator (sort.*, slices.Sort*/Reverse, copy into) applied to a
+// slice the function did not create itself - in particular a descriptor's own child list reached through a local alias -
+// would make one output depend on what was generated before it. Rule: in the generator packages and plugin mains, the
+// target of every in-place mutator is a slice created in the same function (make, literal, nil + append, conversion),
+// and no element of a slice of descriptor pointers is ever assigned.
+func init() {
+	structuralRules["c15.inplace_own"] = func(w *World) []OblResult {
+		var probs []string
+		mutators := map[string]bool{"sort.Slice": true, "sort.SliceStable": true, "sort.Sort": true, "sort.Stable": true, "sort.Strings": true, "sort.Ints": true, "sort.Float64s": true,
+			"slices.Sort": true, "slices.SortFunc": true, "slices.SortStableFunc": true, "slices.Reverse": true}
+		sites := 0
+		for _, k := range w.sortedFuncNames() {
+			fi := w.Funcs[k]
+			if fi.Decl == nil || fi.Decl.Body == nil || fi.Obj.Pkg() == nil || !w.IsRepoFunc(fi.Obj) {
+				continue
+			}
+			path := fi.Obj.Pkg().Path()
+			if !(strings.Contains(path, "/internal/") || strings.Contains(path, "/cmd/")) || strings.HasSuffix(w.Fset.Position(fi.Decl.Pos()).Filename, "_test.go") {
+				continue
+			}
+			info := fi.Pkg.TypesInfo
+			// locals that only ever hold a slice created here
+			fresh := map[*types.Var]bool{}
+			var isFresh func(e ast.Expr) bool
+			isFresh = func(e ast.Expr) bool {
+				switch x := unparen(e).(type) {
+				case *ast.CompositeLit:
+					return true
+				case *ast.SliceExpr:
+					return isFresh(x.X)
+				case *ast.Ident:
+					if x.Name == "nil" {
+						return true
+					}
+					if v, ok := info.Uses[x].(*types.Var); ok {
+						return fresh[v]
+					}
+				case *ast.CallExpr:
+					if id, ok := unparen(x.Fun).(*ast.Ident); ok {
+						if _, isB := info.Uses[id].(*types.Builtin); isB {
+							if id.Name == "make" {
+								return true
+							}
+							if id.Name == "append" && len(x.Args) > 0 {
+								return isFresh(x.Args[0])
+							}
+						}
+					}
+					if sel, ok := unparen(x.Fun).(*ast.SelectorExpr); ok {
+						if f, ok := info.Uses[sel.Sel].(*types.Func); ok && f.Pkg() != nil && f.Pkg().Path() == "strings" {
+							return true // strings.Split / Fields return new slices
+						}
+					}
+				}
+				return false
+			}
+			sig := fi.Obj.Type().(*types.Signature)
+			params := map[*types.Var]bool{}
+			for i := 0; i < sig.Params().Len(); i++ {
+				params[sig.Params().At(i)] = true
+			}
+			ast.Inspect(fi.Decl.Body, func(n ast.Node) bool {
+				if id, ok := n.(*ast.Ident); ok {
+					if v, ok := info.Defs[id].(*types.Var); ok && !v.IsField() && !params[v] {
+						if _, isSlice := v.Type().Underlying().(*types.Slice); isSlice {
+							fresh[v] = true
+						}
+					}
+				}
+				return true
+			})
+			for changed := true; changed; {
+				changed = false
+				drop := func(v *types.Var) {
+					if fresh[v] {
+						delete(fresh, v)
+						changed = true
+					}
+				}
+				ast.Inspect(fi.Decl.Body, func(n ast.Node) bool {
+					switch x := n.(type) {
+					case *ast.RangeStmt:
+						for _, e := range []ast.Expr{x.Key, x.Value} {
+							if id, ok := e.(*ast.Ident); ok {
+								if v, ok := info.Defs[id].(*types.Var); ok {
+									drop(v)
+								}
+							}
+						}
+					case *ast.FuncLit:
+						for _, f := range x.Type.Params.List {
+							for _, nm := range f.Names {
+								if v, ok := info.Defs[nm].(*types.Var); ok {
+									drop(v)
+								}
+							}
+						}
+					case *ast.AssignStmt:
+						for i, l := range x.Lhs {
+							id, ok := l.(*ast.Ident)
+							if !ok {
+								continue
+							}
+							v, _ := info.Defs[id].(*types.Var)
+							if v == nil {
+								v, _ = info.Uses[id].(*types.Var)
+							}
+							if v == nil || !fresh[v] {
+								continue
+							}
+							if len(x.Lhs) != len(x.Rhs) || !isFresh(x.Rhs[i]) {
+								drop(v)
+							}
+						}
+					case *ast.ValueSpec:
+						for i, nm := range x.Names {
+							if v, ok := info.Defs[nm].(*types.Var); ok && fresh[v] && i < len(x.Values) && !isFresh(x.Values[i]) {
+								drop(v)
+							}
+						}
+					}
+					return true
+				})
+			}
+			descriptorElems := func(t types.Type) bool {
+				s, ok := t.Underlying().(*types.Slice)
+				if !ok {
+					return false
+				}
+				if p, ok := s.Elem().(*types.Pointer); ok {
+					if nt, ok := types.Unalias(p.Elem()).(*types.Named); ok && nt.Obj().Pkg() != nil && strings.HasSuffix(nt.Obj().Pkg().Path(), "compiler/protogen") {
+						return true
+					}
+				}
+				return false
+			}
+			ast.Inspect(fi.Decl.Body, func(n ast.Node) bool {
+				switch x := n.(type) {
+				case *ast.CallExpr:
+					name := ""
+					if sel, ok := unparen(x.Fun).(*ast.SelectorExpr); ok {
+						if f, ok := info.Uses[sel.Sel].(*types.Func); ok && f.Pkg() != nil {
+							name = f.Pkg().Name() + "." + f.Name()
+						}
+					} else if id, ok := unparen(x.Fun).(*ast.Ident); ok && id.Name == "copy" {
+						if _, isB := info.Uses[id].(*types.Builtin); isB {
+							name = "copy"
+						}
+					}
+					if (mutators[name] || name == "copy") && len(x.Args) > 0 {
+						sites++
+						if !isFresh(x.Args[0]) {
+							probs = append(probs, fmt.Sprintf("%s applies %s to %s, a slice it did not create: the caller's (or a descriptor's) list would be reordered in place (%s)", shortKey(fi.Obj), name, exprText(w.Fset, x.Args[0]), w.pos(x.Pos())))
+						}
+					}
+				case *ast.AssignStmt:
+					for _, l := range x.Lhs {
+						if ix, ok := l.(*ast.IndexExpr); ok {
+							if t := info.TypeOf(ix.X); t != nil && descriptorElems(t) && !isFresh(ix.X) {
+								probs = append(probs, fmt.Sprintf("%s assigns an element of %s, a list of descriptors it did not create (%s)", shortKey(fi.Obj), exprText(w.Fset, ix.X), w.pos(x.Pos())))
+							}
+						}
+					}
+				}
+				return true
+			})
+		}
+		if sites == 0 {
+			probs = append(probs, "no in-place mutator call found in the generator packages (CombineHeaders and OrderedEnums sort): the rule would be vacuous")
+		}
+		return []OblResult{structResult("C15.inplace.own", "every sort / reverse / copy-into in the generator packages and plugin mains is applied to a slice created in the same function, and no element of a list of descriptors is assigned: descriptors, which all files, services and passes of an invocation share, are never reordered or rewritten", uniq(probs))}
+	}
+}
+
+// ---------------------------------------------------------------------------------------
+// C13: format strings in emitted Go. `go vet` (which `go test` runs) rejects a printf-family call whose constant format has
+// an unknown verb or the wrong number of operands, and a '"' or '\' inside it breaks the literal. A format string that an
+// emitter opens in one literal and closes in a later one may therefore only have *identifiers* spliced in between: Go names
+// of messages, enums and fields (protoc keeps them to [A-Za-z0-9_]), never free text from annotations (custom enum values,
+// discriminators, header names, examples, paths), which may contain '%', '"' or '\'.
+func init() {
+	structuralRules["c13.format_strings"] = func(w *World) []OblResult {
+		var probs []string
+		open := regexp.MustCompile(`(?:Errorf|Sprintf|Printf|Fprintf|Fatalf|Panicf|Logf|Appendf)\((?:[A-Za-z_.]+,\s*)?"$`)
+		sites := 0
+		for _, k := range w.sortedFuncNames() {
+			fi := w.Funcs[k]
+			if fi.Decl == nil || fi.Decl.Body == nil || fi.Obj.Pkg() == nil || !w.IsRepoFunc(fi.Obj) || !strings.Contains(fi.Obj.Pkg().Path(), "/internal/") {
+				continue
+			}
+			if strings.HasSuffix(w.Fset.Position(fi.Decl.Pos()).Filename, "_test.go") {
+				continue
+			}
+			info := fi.Pkg.TypesInfo
+			var identValued func(e ast.Expr, depth int) bool
+			identValued = func(e ast.Expr, depth int) bool {
+				if depth > 4 {
+					return false
+				}
+				e = unparen(e)
+				if t := info.TypeOf(e); t != nil {
+					if nt, ok := types.Unalias(t).(*types.Named); ok && nt.Obj().Pkg() != nil && strings.HasSuffix(nt.Obj().Pkg().Path(), "compiler/protogen") && (nt.Obj().Name() == "GoIdent" || nt.Obj().Name() == "GoPackageName") {
+						return true
+					}
+				}
+				switch x := e.(type) {
+				case *ast.SelectorExpr:
+					if x.Sel.Name == "GoName" {
+						return true
+					}
+				case *ast.CallExpr:
+					if sel, ok := unparen(x.Fun).(*ast.SelectorExpr); ok && len(x.Args) == 1 {
+						if f, ok := info.Uses[sel.Sel].(*types.Func); ok && f.Pkg() != nil {
+							switch f.Pkg().Name() + "." + f.Name() {
+							case "strings.ToLower", "strings.ToUpper", "strings.Title", "annotations.LowerFirst":
+								return identValued(x.Args[0], depth+1)
+							}
+						}
+					}
+					if tv, ok := info.Types[x.Fun]; ok && tv.IsType() && len(x.Args) == 1 {
+						return identValued(x.Args[0], depth+1) // string(name)
+					}
+				case *ast.Ident:
+					if v, ok := info.Uses[x].(*types.Var); ok && !v.IsField() {
+						// a local with a single definition
+						var def ast.Expr
+						n := 0
+						ast.Inspect(fi.Decl.Body, func(nd ast.Node) bool {
+							if as, ok := nd.(*ast.AssignStmt); ok && len(as.Lhs) == len(as.Rhs) {
+								for i, l := range as.Lhs {
+									if id, ok := l.(*ast.Ident); ok && (info.Defs[id] == v || info.Uses[id] == v) {
+										def = as.Rhs[i]
+										n++
+									}
+								}
+							}
+							return true
+						})
+						if n == 1 && def != nil {
+							return identValued(def, depth+1)
+						}
+					}
+				}
+				return false
+			}
+			ast.Inspect(fi.Decl.Body, func(n ast.Node) bool {
+				call, ok := n.(*ast.CallExpr)
+				if !ok {
+					return true
+				}
+				sel, ok := call.Fun.(*ast.SelectorExpr)
+				if !ok || sel.Sel.Name != "P" {
+					return true
+				}
+				inFmt := false
+				for _, a := range call.Args {
+					if bl, ok := unparen(a).(*ast.BasicLit); ok && bl.Kind == token.STRING {
+						val, err := strconv.Unquote(bl.Value)
+						if err != nil {
+							continue
+						}
+						for i := 0; i < len(val); i++ {
+							if inFmt {
+								if val[i] == '\\' {
+									i++
+								} else if val[i] == '"' {
+									inFmt = false
+								}
+							} else if val[i] == '"' && open.MatchString(val[:i+1]) {
+								inFmt = true
+								sites++
+							}
+						}
+						continue
+					}
+					if inFmt && !identValued(a, 0) {
+						probs = append(probs, fmt.Sprintf("%s splices %s into the format string of an emitted printf-family call: text that is not a Go identifier may contain %%, \" or \\ (go vet failure or broken literal) (%s)", shortKey(fi.Obj), exprText(w.Fset, a), w.pos(a.Pos())))
+					}
+				}
+				return true
+			})
+		}
+		if sites == 0 {
+			probs = append(probs, "no emitted printf-family format string found: the rule would be vacuous")
+		}
+		return []OblResult{structResult("C13.format_strings.identifiers_only", "every format string of a printf-family call that the generators emit consists of literal text and spliced Go identifiers (GoName / GoIdent, possibly case-converted) only: no annotation text can introduce a verb, a quote or a backslash into it", uniq(probs))}
+	}
 }
